@@ -227,6 +227,13 @@ def drive(spec, passes=1, keep_stream=True, max_actions=2_000_000, observe=True,
                         ex.v("C09", "stream_ended_early", "StopIteration after %d actions" % count)
                     break
                 count += 1
+                if len(ex.viol) > 60 or count > 50 * (N + 10) * (N + 10):
+                    # enough evidence, or a stream that does not make progress (a correct stream has
+                    # far fewer than 50 (N+10)^2 actions per pass): stop instead of running to max_actions
+                    if len(ex.viol) <= 60:
+                        ex.v("C02", "stream_ended_early", "no progress after %d actions" % count)
+                        ex.v("C09", "stream_ended_early", "no progress after %d actions" % count)
+                    break
                 if other is not None:
                     try:
                         next(other)
